@@ -3,6 +3,7 @@
    Built normally and with -fsanitize=thread (any TSan report aborts the harness: exit code 66).
    op:  threads N seed nops   ->  0 when every thread's digest equals its sequential digest */
 #include "harness.h"
+#include "gmp-impl.h"      /* RANDS_CLEAR, __gmp_rands_initialized (cells_trace) */
 #include <pthread.h>
 #define NSRC 8
 #define NPRIV 6
@@ -104,4 +105,216 @@ static int op_threads(int argc, tok_t *a, out_t *o) {
   if (bad) { out_err(o, "thread-result-differs"); out_long(o, bad); } else out_long(o, 0);
   return 0;
 }
-const opdef_t ops_threads[] = { {"threads", op_threads}, {0, 0} };
+
+/* ---------------------------------------------------------------------------------------------------------
+   threadsx N seed nops profile: histories aimed at the places where a library keeps hidden state —
+   bit 0 printf/scanf (private buffers), bit 1 string conversion (below and above the precompute thresholds),
+   bit 2 factorial / binomial / fibonacci (tables + sieve + prime-swing), bit 3 primality (trial division,
+   Miller-Rabin with the function's own generator, private states), bit 4 one random state per thread
+   (MT, LC, copies, reseeding), bit 5 READS of the default mpf precision (set by the main thread BEFORE the
+   threads exist, restored after they are joined: the documented discipline), bit 6 the documented exception: thread 0
+   — and only thread 0 — also uses the obsolete random functions on the library's global generator (mpn_random,
+   mpn_random2, mpf_random2) and clears it before it ends; the other threads never touch those cells.
+   Per-thread memory accounting: an allocator with thread-local counters is installed (again before thread
+   creation); every thread must free exactly what it allocated, and its allocation count and byte total must
+   equal those of the sequential run (a shared cache filled by whichever thread comes first breaks this). */
+static void *(*x_alloc0)(size_t); static void *(*x_realloc0)(void *, size_t, size_t); static void (*x_free0)(void *, size_t);
+static __thread unsigned long x_na, x_nf, x_ba, x_bf;
+static void *x_alloc(size_t n) { x_na++; x_ba += n; return x_alloc0(n); }
+static void *x_realloc(void *p, size_t o, size_t n) { x_na++; x_nf++; x_ba += n; x_bf += o; return x_realloc0(p, o, n); }
+static void x_free(void *p, size_t n) { x_nf++; x_bf += n; x_free0(p, n); }
+typedef struct { int id; unsigned long seed; long nops; int profile; unsigned long digest, na, ba; long live_blocks, live_bytes; } jobx_t;
+#define NPR 6
+static mpz_t srcx_p[NPR];      /* shared read-only: primes and composites that survive trial division */
+static unsigned long fold_s(unsigned long h, const char *c) { for (; *c; c++) h = h * 131 + (unsigned char) *c; return h; }
+static void x_freestr(char *st) { void (*fr)(void *, size_t); mp_get_memory_functions(NULL, NULL, &fr); fr(st, strlen(st) + 1); }
+
+static void *workerx(void *arg) {
+  jobx_t *j = arg; unsigned long s = j->seed * 0x9E3779B97F4A7C15UL + 0x1234567 + 977 * j->id, h = 1469598103934665603UL;
+  x_na = x_nf = x_ba = x_bf = 0;
+  mpz_t z[4]; mpq_t q; mpf_t f; gmp_randstate_t mt, lc, cp; char buf[600];
+  for (int i = 0; i < 4; i++) mpz_init(z[i]);
+  mpq_init(q); mpf_init2(f, 300);
+  gmp_randinit_mt(mt); gmp_randseed_ui(mt, j->seed ^ (0x55 * (j->id + 1)));
+  gmp_randinit_lc_2exp_size(lc, 100); gmp_randseed_ui(lc, j->seed + 3 * j->id);
+  int kinds[7], nk = 0; for (int b = 0; b < 6; b++) if (j->profile >> b & 1) kinds[nk++] = b;
+  if ((j->profile >> 6 & 1) && j->id == 0) kinds[nk++] = 6;
+  if (!nk) kinds[nk++] = 0;
+  for (long k = 0; k < j->nops; k++) {
+    unsigned long r = xs(&s); int d = r & 3, sub = (r >> 8) % 8; unsigned long v = r >> 40;
+    switch (kinds[(r >> 2) % nk]) {
+    case 0:                       /* printf / scanf */
+      mpz_urandomb(z[d], mt, 1 + v % 700); if (v & 1) mpz_neg(z[d], z[d]);
+      mpq_set_ui(q, 1 + v % 977, 1 + (v >> 10) % 1009); mpq_canonicalize(q); mpf_set_z(f, z[d]); mpf_div_ui(f, f, 7 + v % 90);
+      switch (sub) {
+      case 0: gmp_snprintf(buf, sizeof buf, "%Zd", z[d]); break;
+      case 1: gmp_snprintf(buf, sizeof buf, "%#40Zx|%-+30Zd|%Qd", z[d], z[(d + 1) & 3], q); break;   /* format longer than 40 characters below */
+      case 2: gmp_snprintf(buf, sizeof buf, "a rather long literal prefix, then %Zd and %Qx and %.20Fe and %lu", z[(d + 1) & 3], q, f, v); break;
+      case 3: gmp_sprintf(buf, "%.30Ff %Fg %5.3Fe", f, f, f); break;
+      case 4: { char *st = 0; int n = gmp_asprintf(&st, "%Zo %Qd %d", z[d], q, (int) (v % 1000)); h = h * 31 + n; strncpy(buf, st, sizeof buf - 1); buf[sizeof buf - 1] = 0; x_freestr(st); } break;
+      case 5: { int n = 0; gmp_snprintf(buf, 24, "%Zd%n", z[d], &n); h = h * 31 + n; } break;
+      case 6: { gmp_snprintf(buf, sizeof buf, "%Zd %Qd %Fe", z[d], q, f); mpz_t a; mpq_t b; mpf_t c; mpz_init(a); mpq_init(b); mpf_init2(c, 300); int n = gmp_sscanf(buf, "%Zd %Qd %Ff", a, b, c);
+                h = fold_z(fold_z(fold_z(fold_f(h * 31 + n, c), a), mpq_numref(b)), mpq_denref(b)); mpz_clear(a); mpq_clear(b); mpf_clear(c); } break;
+      case 7: { long a = 0; unsigned long b = 0; int n = 0; gmp_sscanf(" -123 0x7fffffff   99999999999999999999999", "%ld %li%n %Zi", &a, &b, &n, z[d]); h = h * 31 + a + b + n; buf[0] = 0; } break;
+      }
+      h = fold_s(h, buf); break;
+    case 1: {                     /* string conversion: 2..62, negative bases, sizes around SET_STR_DC/PRECOMPUTE and GET_STR thresholds */
+      static const int sizes[8] = {1, 60, 640, 1100, 6000, 9000, 30000, 200};
+      int base = 2 + v % 61; if (sub == 7) base = 10;
+      mpz_urandomb(z[d], mt, sizes[sub]); if (v >> 20 & 1) mpz_neg(z[d], z[d]);
+      char *st = mpz_get_str(NULL, (v >> 21 & 1) && base <= 36 ? -base : base, z[d]); h = fold_s(h, st);
+      mpz_set_str(z[(d + 1) & 3], st, base); h = h * 31 + (mpz_cmp(z[d], z[(d + 1) & 3]) == 0); x_freestr(st);
+      if (sub == 2) { mp_exp_t e; mpf_set_z(f, z[d]); mpf_sqrt_ui(f, 2 + v % 50); st = mpf_get_str(NULL, &e, base, 40, f); h = fold_s(h, st) + e; x_freestr(st); mpf_set_str(f, "-1.25e-3", 10); h = fold_f(h, f); }
+      if (sub == 3) { mpq_set_z(q, z[d]); mpz_set_ui(mpq_denref(q), 1 + 2 * (v % 1000)); mpq_canonicalize(q); st = mpq_get_str(NULL, base, q); h = fold_s(h, st); mpq_set_str(q, st, base); x_freestr(st); }
+      } break;
+    case 2: {                     /* factorial / binomial / fibonacci: table range, just above it, sieve range, prime-swing range */
+      static const unsigned long ns[8] = {0, 20, 36, 37, 100, 900, 2500, 6000};
+      unsigned long n = ns[sub] + v % 13;
+      switch ((v >> 8) % 8) {
+      case 0: mpz_fac_ui(z[d], n); break;
+      case 1: mpz_2fac_ui(z[d], n); break;
+      case 2: mpz_mfac_uiui(z[d], n, 1 + (v >> 12) % 5); break;
+      case 3: mpz_primorial_ui(z[d], n); break;
+      case 4: mpz_bin_uiui(z[d], n + 40, (v >> 12) % (n + 41)); break;
+      case 5: mpz_urandomb(z[(d + 1) & 3], mt, 90); mpz_bin_ui(z[d], z[(d + 1) & 3], (v >> 12) % 50); break;
+      case 6: mpz_fib_ui(z[d], n); mpz_fib2_ui(z[(d + 1) & 3], z[(d + 2) & 3], n * 3); break;
+      case 7: mpz_lucnum_ui(z[d], n); mpz_lucnum2_ui(z[(d + 1) & 3], z[(d + 2) & 3], n + 1); break;
+      }
+      h = fold_z(h, z[d]); } break;
+    case 3: {                     /* primality */
+      mpz_srcptr P = srcx_p[v % NPR];
+      switch (sub) {
+      case 0: case 1: h = h * 31 + mpz_probab_prime_p(P, 5 + v % 20); break;        /* Miller-Rabin stage reached: n > 10^6 without small factors */
+      case 2: mpz_nextprime(z[d], P); h = fold_z(h, z[d]); break;
+      case 3: h = h * 31 + mpz_likely_prime_p(P, mt, 0); break;
+      case 4: h = h * 31 + mpz_probable_prime_p(P, lc, 10, 0); break;
+      case 5: mpz_next_prime_candidate(z[d], P, mt); h = fold_z(h, z[d]); break;
+      case 6: mpz_urandomb(z[d], mt, 40 + v % 300); mpz_setbit(z[d], 0); h = h * 31 + mpz_probab_prime_p(z[d], 10); break;
+      case 7: mpz_set_ui(z[d], 1000003 + 2 * (v % 5000)); h = h * 31 + mpz_probab_prime_p(z[d], 3) + 3 * mpz_millerrabin(z[d], 4); break;
+      }
+      } break;
+    case 4:                       /* one random state per thread */
+      switch (sub) {
+      case 0: mpz_urandomb(z[d], mt, 1 + v % 2000); break;
+      case 1: mpz_urandomb(z[d], lc, 1 + v % 500); break;
+      case 2: mpz_urandomb(z[(d + 1) & 3], mt, 1 + v % 300); mpz_add_ui(z[(d + 1) & 3], z[(d + 1) & 3], 1); mpz_urandomm(z[d], (v >> 12 & 1) ? mt : lc, z[(d + 1) & 3]); break;
+      case 3: mpz_rrandomb(z[d], mt, 1 + v % 900); break;
+      case 4: mpf_urandomb(f, lc, 1 + v % 300); h = fold_f(h, f); break;
+      case 5: gmp_randinit_set(cp, (v >> 12 & 1) ? mt : lc); mpz_urandomb(z[d], cp, 128); gmp_randclear(cp); break;
+      case 6: mpz_urandomb(z[(d + 1) & 3], lc, 1 + v % 700); gmp_randseed(mt, z[(d + 1) & 3]); mpz_urandomb(z[d], mt, 64); break;
+      case 7: h = h * 31 + gmp_urandomb_ui(mt, 1 + v % 64) + gmp_urandomm_ui(lc, 1 + v % 1000003); break;
+      }
+      h = fold_z(h, z[d]); break;
+    case 5: {                     /* reads of the default precision */
+      mpf_t g;
+      switch (sub % 6) {
+      case 0: mpf_init(g); break;
+      case 1: mpf_init_set_ui(g, v); break;
+      case 2: mpf_init_set_si(g, -(long) (v % 100000)); break;
+      case 3: mpf_init_set_d(g, (double) (v % 4096) / 64.0); break;
+      case 4: mpf_init_set_str(g, "3.14159265358979323846264338327950288419716939937510582097494459", 10); break;
+      case 5: mpf_init_set(g, f); break;
+      }
+      h = fold_f(h * 31 + g->_mp_prec + mpf_get_prec(g) + mpf_get_default_prec(), g);
+      mpf_sqrt_ui(g, 2 + v % 100); h = fold_f(h, g); mpf_clear(g); } break;
+    case 6: {                     /* the global generator, from this thread only */
+      mp_limb_t t[40]; long n = 1 + v % 40;
+      switch (sub % 3) {
+      case 0: mpn_random(t, n); for (long i = 0; i < n; i++) h = (h ^ t[i]) * 1099511628211UL; break;
+      case 1: mpn_random2(t, n); for (long i = 0; i < n; i++) h = (h ^ t[i]) * 1099511628211UL; break;
+      case 2: mpf_random2(f, 1 + v % 4, 3); h = fold_f(h, f); break;
+      }
+      } break;
+    }
+  }
+  if ((j->profile >> 6 & 1) && j->id == 0) RANDS_CLEAR();
+  for (int i = 0; i < 4; i++) mpz_clear(z[i]);
+  mpq_clear(q); mpf_clear(f); gmp_randclear(mt); gmp_randclear(lc);
+  j->digest = h; j->na = x_na; j->ba = x_ba; j->live_blocks = (long) (x_na - x_nf); j->live_bytes = (long) (x_ba - x_bf);
+  return 0;
+}
+static int op_threadsx(int argc, tok_t *a, out_t *o) {
+  if (argc != 4) return -1;
+  int n = tok_long(&a[0]); unsigned long seed = tok_ulong(&a[1]); long nops = tok_long(&a[2]); int profile = tok_long(&a[3]);
+  if (n < 1 || n > 16 || nops < 0 || nops > 100000 || profile < 0 || profile > 127) return -1;
+  gmp_randstate_t rs; gmp_randinit_default(rs); gmp_randseed_ui(rs, seed);
+  static const long pbits[NPR] = {24, 40, 64, 130, 400, 90};
+  for (int i = 0; i < NPR; i++) { mpz_init(srcx_p[i]); mpz_urandomb(srcx_p[i], rs, pbits[i]); mpz_setbit(srcx_p[i], pbits[i] - 1); mpz_nextprime(srcx_p[i], srcx_p[i]); }
+  { mpz_t t; mpz_init(t); mpz_urandomb(t, rs, 50); mpz_setbit(t, 49); mpz_nextprime(t, t); mpz_mul(srcx_p[5], srcx_p[5], t); mpz_clear(t); }   /* composite without small factors */
+  gmp_randclear(rs);
+  /* the documented discipline: shared cells are written only while no other thread exists */
+  mp_bitcnt_t prec0 = mpf_get_default_prec(); mpf_set_default_prec(64 + seed % 700);
+  mp_get_memory_functions(&x_alloc0, &x_realloc0, &x_free0); mp_set_memory_functions(x_alloc, x_realloc, x_free);
+  jobx_t par[16], seq[16]; pthread_t th[16];
+  for (int i = 0; i < n; i++) { par[i].id = seq[i].id = i; par[i].seed = seq[i].seed = seed; par[i].nops = seq[i].nops = nops; par[i].profile = seq[i].profile = profile; }
+  for (int i = 0; i < n; i++) pthread_create(&th[i], 0, workerx, &par[i]);
+  for (int i = 0; i < n; i++) pthread_join(th[i], 0);
+  for (int i = 0; i < n; i++) workerx(&seq[i]);
+  mp_set_memory_functions(x_alloc0, x_realloc0, x_free0); mpf_set_default_prec(prec0);
+  int bad = 0, unbal = 0, acct = 0;
+  for (int i = 0; i < n; i++) {
+    if (par[i].digest != seq[i].digest) bad++;
+    if (par[i].live_blocks || par[i].live_bytes || seq[i].live_blocks || seq[i].live_bytes) unbal++;
+    if (par[i].na != seq[i].na || par[i].ba != seq[i].ba) acct++;
+  }
+  for (int i = 0; i < NPR; i++) mpz_clear(srcx_p[i]);
+  if (bad) { out_err(o, "thread-result-differs"); out_long(o, bad); }
+  else if (unbal) { out_err(o, "thread-memory-not-balanced"); out_long(o, unbal); }
+  else if (acct) { out_err(o, "thread-memory-accounting-differs"); out_long(o, acct); }
+  else out_long(o, 0);
+  return 0;
+}
+
+/* ---------------------------------------------------------------------------------------------------------
+   cells_trace [codes]: a sequential trace of the API calls that touch the documented shared cells, answered by
+   the Lean model `Mpir.Threads.runApi` (lean/Mpir/Model/Threads.lean).  Codes: 1 a r f  mp_set_memory_functions
+   (0 = NULL, 1/2 = counting families); 2 mp_get_memory_functions; 3 b mpf_set_default_prec; 4 mpf_get_default_prec;
+   5 mpf_init; 6 mpz_init2/realloc2/clear; 7 mpn_random (RANDS); 8 RANDS_CLEAR; 9 gmp_errno.
+   The op starts from, and restores, the state of a freshly loaded library. */
+static long c_cnt[3][3];      /* [family][alloc, realloc, free] */
+static void *c_a1(size_t n) { c_cnt[1][0]++; return malloc(n); }
+static void *c_r1(void *p, size_t o, size_t n) { c_cnt[1][1]++; return realloc(p, n); }
+static void c_f1(void *p, size_t n) { c_cnt[1][2]++; free(p); }
+static void *c_a2(size_t n) { c_cnt[2][0]++; return malloc(n); }
+static void *c_r2(void *p, size_t o, size_t n) { c_cnt[2][1]++; return realloc(p, n); }
+static void c_f2(void *p, size_t n) { c_cnt[2][2]++; free(p); }
+static long c_snap[3];
+static void c_mark(void) { for (int k = 0; k < 3; k++) c_snap[k] = c_cnt[1][k] + 1000000 * c_cnt[2][k]; }
+static unsigned long c_who(int k) { long d = c_cnt[1][k] + 1000000 * c_cnt[2][k] - c_snap[k]; return d == 0 ? 0 : d == 1 ? 1 : d == 1000000 ? 2 : 99; }
+static int op_cells_trace(int argc, tok_t *a, out_t *o) {
+  if (!(argc == 1 && a[0].kind == T_VEC)) return -1;
+  long n = a[0].n; const mp_limb_t *c = a[0].d;
+  /* validate first (same language as Mpir.Threads.decodeCalls) */
+  for (long i = 0; i < n; ) {
+    if (c[i] == 1) { if (i + 3 >= n || c[i + 1] > 2 || c[i + 2] > 2 || c[i + 3] > 2) return -1; i += 4; }
+    else if (c[i] == 3) { if (i + 1 >= n || c[i + 1] > (1UL << 20)) return -1; i += 2; }
+    else if (c[i] == 2 || (c[i] >= 4 && c[i] <= 9)) i++;
+    else return -1;
+  }
+  void *(*sa)(size_t); void *(*sr)(void *, size_t, size_t); void (*sf)(void *, size_t);
+  mp_get_memory_functions(&sa, &sr, &sf);
+  mp_bitcnt_t prec0 = mpf_get_default_prec();
+  mp_set_memory_functions(0, 0, 0); mpf_set_default_prec(53); RANDS_CLEAR();
+  void *(*d_a)(size_t); void *(*d_r)(void *, size_t, size_t); void (*d_f)(void *, size_t);
+  mp_get_memory_functions(&d_a, &d_r, &d_f);        /* the library's defaults */
+  static void *(*const fa[3])(size_t) = {0, c_a1, c_a2}; static void *(*const fr[3])(void *, size_t, size_t) = {0, c_r1, c_r2}; static void (*const ff[3])(void *, size_t) = {0, c_f1, c_f2};
+  mp_limb_t *obs = malloc((3 * n + 4) * sizeof *obs); long m = 0;
+  for (long i = 0; i < n; ) {
+    switch (c[i]) {
+    case 1: mp_set_memory_functions(fa[c[i + 1]], fr[c[i + 2]], ff[c[i + 3]]); i += 4; break;
+    case 2: { void *(*ga)(size_t); void *(*gr)(void *, size_t, size_t); void (*gf)(void *, size_t); mp_get_memory_functions(&ga, &gr, &gf);
+              obs[m++] = ga == d_a ? 0 : ga == c_a1 ? 1 : ga == c_a2 ? 2 : 99; obs[m++] = gr == d_r ? 0 : gr == c_r1 ? 1 : gr == c_r2 ? 2 : 99; obs[m++] = gf == d_f ? 0 : gf == c_f1 ? 1 : gf == c_f2 ? 2 : 99; i++; } break;
+    case 3: mpf_set_default_prec(c[i + 1]); i += 2; break;
+    case 4: obs[m++] = mpf_get_default_prec(); i++; break;
+    case 5: { mpf_t x; c_mark(); mpf_init(x); obs[m++] = x->_mp_prec; obs[m++] = mpf_get_prec(x); obs[m++] = c_who(0); mpf_clear(x); i++; } break;
+    case 6: { mpz_t z; c_mark(); mpz_init2(z, 320); mpz_realloc2(z, 3200); mpz_clear(z); obs[m++] = c_who(0); obs[m++] = c_who(1); obs[m++] = c_who(2); i++; } break;
+    case 7: { mp_limb_t t[2]; c_mark(); mpn_random(t, 2); obs[m++] = __gmp_rands_initialized ? c_who(0) : 98; obs[m++] = __gmp_rands_initialized; i++; } break;
+    case 8: { c_mark(); RANDS_CLEAR(); obs[m++] = c_who(2); i++; } break;
+    case 9: obs[m++] = (unsigned long) gmp_errno; i++; break;
+    }
+  }
+  RANDS_CLEAR(); mp_set_memory_functions(sa, sr, sf); mpf_set_default_prec(prec0);
+  out_vec(o, obs, m); free(obs);
+  return 0;
+}
+const opdef_t ops_threads[] = { {"threads", op_threads}, {"threadsx", op_threadsx}, {"cells_trace", op_cells_trace}, {0, 0} };
